@@ -220,6 +220,8 @@ def node_impl(n):
         out["parameters"] = cfg
     if n.get("ckey") is not None:
         out["context_key"] = n["ckey"]
+    if n.get("proc_name"):
+        out["processor"] = n["proc_name"]        # another spelling of the same processor (e.g. `package.module:Class`)
     return out
 
 
